@@ -1459,3 +1459,11 @@ VP("C02-R3C-mut-dict-value-not-decoded", "C02", "unpacked codec pair: values sto
    "            val = value_field.to_python(cfg, basic_val)", "            val = basic_val")
 VP("C02-R3C-mut-dict-key-not-encoded", "C02", "unpacked codec pair: keys written unencoded", "C02-R3C", "cincoconfig/fields/dict_field.py",
    "                basic_key = key_field.to_basic(cfg, key)", "                basic_key = key")
+VP("C01-R3C-mut-flag-bound-inclusive", "C05", "flag form: the lower bound itself is rejected", "C01-R3C", "cincoconfig/fields/number_field.py",
+   "too_small = lower is not None and num < lower", "too_small = lower is not None and num <= lower")
+VP("C01-R3C-mut-flag-bound-unused", "C01", "flag form: upper bound computed, never tested", "C01-R3C", "cincoconfig/fields/number_field.py",
+   "        if too_large:\n            raise ValueError(\"value must be <= %s\" % upper)\n", "")
+VP("C01-R3C-mut-bound-on-input", "C01", "flag form: bound compared with the unconverted input", "C01-R3C", "cincoconfig/fields/number_field.py",
+   "too_large = upper is not None and num > upper", "too_large = upper is not None and value > upper")
+VP("C01-R3C-mut-ifexp-fast-no-identity", "C01", "conditional-expression fast path without the identity test", "C01-R3C", "cincoconfig/fields/list_field.py",
+   "        prevalidated = (\n            isinstance(iterable, ListProxy) and iterable.item_field is self.item_field\n        )", "        prevalidated = isinstance(iterable, ListProxy)")
